@@ -311,6 +311,7 @@ class Report:
         self.prop, self.tier, self.seed = prop, tier, seed
         self.t0 = time.time()
         self.violations = []
+        self.deferred = []   # bare divergences: reported at the end, only if nothing concrete was found
         self.known = []
         self.coverage = {"evaluations": 0, "distinct_nontrivial": 0, "samples": [], "rule": "",
                          "programs": 0, "disagreements_checked": 0,
@@ -335,7 +336,13 @@ class Report:
         self.known.append(what)
         print("KNOWN-FINDING: property=%s %s" % (self.prop, what))
 
+    def defer(self, text, replay_body):
+        self.deferred.append((text, replay_body))
+
     def finish(self, proof_info, checker_cmd):
+        if self.deferred and not self.violations:
+            for text, body in self.deferred[:2]:
+                self.violation(text, body, no_input=True)
         cov = self.coverage
         cov["distinct_nontrivial"] = max(cov["distinct_nontrivial"], len(self.distinct))
         cov["obligations"] = proof_info.get("obligations", 0)
